@@ -656,6 +656,11 @@ func (r *rparser) expr(prec int) (*Node, error) {
 				return nil, err
 			}
 			left = fn
+			if prec == pLambda {
+				// a lambda that is itself the body of a lambda ends that body: what follows (call, index, operator)
+				// applies to the outer lambda, x => y => {}() is (x => y => {})()
+				return left, nil
+			}
 		case ":":
 			r.next()
 			if r.isOp("]") { // open ended slice
